@@ -1385,10 +1385,13 @@ func (w *Wallet) swapToSend(
 	}
 
 	splitForSendAmount := cashu.AmountSplit(amount)
-	var feesToReceive uint = 0
+	var splitForFees []uint64
 	if includeFees {
-		feesToReceive = feesForCount(len(splitForSendAmount)+1, activeSatKeyset)
-		amount += uint64(feesToReceive)
+		// proofs added to cover the fees are inputs that the receiver pays fees for as well
+		splitForFees = feeSplitForSend(len(splitForSendAmount), activeSatKeyset)
+		for _, feeAmount := range splitForFees {
+			amount += feeAmount
+		}
 	}
 
 	proofsToSwap, err := w.selectProofsForAmount(amount, mint, true)
@@ -1401,7 +1404,7 @@ func (w *Wallet) swapToSend(
 	var rs, changeRs []*secp256k1.PrivateKey
 	var counter, incrementCounterBy uint32
 
-	split := append(splitForSendAmount, cashu.AmountSplit(uint64(feesToReceive))...)
+	split := append(splitForSendAmount, splitForFees...)
 	slices.Sort(split)
 	// if no spendingCondition passed, create blinded messages from counter
 	if spendingCondition == nil {
@@ -1594,6 +1597,36 @@ func feesForProofs(proofs cashu.Proofs, mint *walletMint) uint {
 		}
 	}
 	return (fees + 999) / 1000
+}
+
+// feeSplitForSend returns the amounts of the extra proofs to add to count proofs so that
+// their sum is exactly the fee for spending all of them (the count proofs plus the extra ones).
+// The fee depends on the number of proofs, and the number of proofs needed for the fee
+// depends on the fee, so both are searched together: fee amount f in k proofs where
+// feesForCount(count+k) = f. An amount f can be split in k powers of two
+// for any k between its number of set bits and f.
+func feeSplitForSend(count int, keyset *crypto.WalletKeyset) []uint64 {
+	if keyset.InputFeePpk == 0 {
+		return nil
+	}
+	maxFee := uint64(feesForCount(count+crypto.MAX_ORDER, keyset)) + crypto.MAX_ORDER
+	for fee := uint64(1); fee <= maxFee; fee++ {
+		split := cashu.AmountSplit(fee)
+		for k := len(split); uint64(k) <= fee; k++ {
+			if uint64(feesForCount(count+k, keyset)) != fee {
+				continue
+			}
+			// split the largest amounts until there are k
+			for len(split) < k {
+				slices.Sort(split)
+				largest := split[len(split)-1]
+				split = append(split[:len(split)-1], largest/2, largest/2)
+			}
+			return split
+		}
+	}
+	// should not get here. Previous estimate of one extra proof for fees
+	return cashu.AmountSplit(uint64(feesForCount(count+1, keyset)))
 }
 
 func feesForCount(count int, keyset *crypto.WalletKeyset) uint {
